@@ -34,8 +34,11 @@ JD1 == JLeaf \cup {JArr(s) : s \in SeqsUpTo(TakeN(JLeaf, 4), 2)}
              \cup {JObj(<<Pair(<<"a">>, v), Pair(<<k>>, w)>>) : k \in {"a", "b"}, v \in TakeN(JLeaf, 3), w \in TakeN(JLeaf, 3)}
              \cup {JObj(<<Pair(KW("value"), v), Pair(KW("type"), t)>>) : v \in TakeN(JLeaf, 4), t \in {JStr(KW("string")), JStr(KW("number")), JNull, JArr(<<JStr(KW("list")), JNull>>), JArr(<<JStr(KW("list"))>>), JStr(<<"x">>)}}
              \cup {JObj(<<Pair(KW("type"), t), Pair(KW("value"), v)>>) : v \in TakeN(JLeaf, 3), t \in {JStr(KW("string")), JArr(<<JStr(KW("tuple")), JArr(<<JNull>>)>>)}}
-JD2 == JD1 \cup {JArr(<<x, y>>) : x \in TakeN(JD1 \ JLeaf, 20), y \in TakeN(JD1, 5)} \cup {JObj(<<Pair(<<"a">>, x), Pair(<<"b">>, y)>>) : x \in TakeN(JD1 \ JLeaf, 20), y \in TakeN(JLeaf, 3)}
-JLines == {[k |-> "js", doc |-> d, targets |-> StructTargets] : d \in (IF Thorough THEN JD2 ELSE JD1 \cup TakeN(JD2 \ JD1, 150))}
+\* duplicate property names whose values are structures (objects, arrays) of equal and of different shapes
+JDup == {JObj(<<Pair(<<"a">>, v), Pair(<<"a">>, w)>>) : v \in {JObj(<<>>), JArr(<<>>), JObj(<<Pair(<<"b">>, JNum(Qn(4)))>>), JArr(<<JNum(Qn(4))>>)}, w \in {JObj(<<>>), JArr(<<>>), JObj(<<Pair(<<"b">>, JStr(<<"x">>))>>), JArr(<<JBool(TRUE)>>)}}
+        \cup {JArr(<<JObj(<<Pair(<<"a">>, JObj(<<>>)), Pair(<<"b">>, JNull), Pair(<<"a">>, JObj(<<>>))>>)>>)}
+JD2 == JDup \cup JD1 \cup {JArr(<<x, y>>) : x \in TakeN(JD1 \ JLeaf, 20), y \in TakeN(JD1, 5)} \cup {JObj(<<Pair(<<"a">>, x), Pair(<<"b">>, y)>>) : x \in TakeN(JD1 \ JLeaf, 20), y \in TakeN(JLeaf, 3)}
+JLines == {[k |-> "js", doc |-> d, targets |-> StructTargets] : d \in (IF Thorough THEN JD2 ELSE JD1 \cup JDup \cup TakeN(JD2 \ JD1, 150))}
 \* type descriptions (valid and invalid)
 TLeaf == {JStr(KW("string")), JStr(KW("number")), JStr(KW("bool")), JStr(KW("dynamic")), JStr(<<"x">>), JNull, JNum(Qn(4)), JBool(TRUE), JObj(<<>>), JArr(<<>>)}
 TD1 == TLeaf \cup {JArr(<<JStr(KW(c)), t>>) : c \in {"list", "set", "map", "tuple", "object"}, t \in TLeaf}
